@@ -10,7 +10,7 @@ DESCRIPTION = {
              "on/off, whether the caller registry knows the class, and synchronous vs asynchronous (pending result failed later) endpoints.  Oracle: on the wire the ERROR carries "
              "the registered / carried / generic runtime-error URI, args == list(exc.args), kwargs == the exception's kwargs (+ 'traceback' iff enabled); the caller's pending call "
              "fails exactly once with an instance of the class registered for that URI built from those args/kwargs, else with ApplicationError carrying URI, args and kwargs; the "
-             "error is never lost.  The caller may map the class to a second (alias) URI before or after.  A third of the cases run with a payload codec (cryptobox keyring) on both peers.  Non-trivial = non-empty args and kwargs with a registered class, or a fallback path; distinct by (kind, payload shape, serializer)."),
+             "error is never lost.  The caller may map the class to a second (alias) URI before or after.  A third of the cases run with a payload codec (cryptobox keyring) on both peers.  Non-trivial = non-empty args and kwargs with a registered class, or a fallback path; distinct by (kind, payload shape, serializer). Error URIs include ones only the loose WAMP rule admits (upper case, hyphens, non-ASCII; for decorated / defined classes hyphens and underscores, as uri.Pattern allows)."),
     "assumptions": ["kwargs keys that ApplicationError/CallResult reserve for metadata (enc_algo, callee, callee_authid, callee_authrole, forward_for) are not generated as application kwargs; an application "
                     "error that already carries a 'traceback' kwarg is generated: with traceback forwarding on the forwarded traceback replaces it, otherwise it travels unchanged"],
 }
